@@ -1244,6 +1244,21 @@ func monC18(tr *Trace, br map[string]int) (out []Violation) {
 			out = append(out, viol("C18", "reveal-without-prevote", c.i, "vote of %s accepted although it holds no prevote", c.op[2]))
 			return
 		}
+		// an opening consists of well-formed entries for supported chains: anything else can be re-cut into a different opening
+		for _, vd := range parseVD(c.op[5]) {
+			for _, es := range vd.entries {
+				_, chain, ok := parseEntry(es)
+				sup := false
+				for _, ch := range c.pre.Chains {
+					if decTok(ch) == chain {
+						sup = true
+					}
+				}
+				if vd.topic != 'O' || !ok || !sup {
+					out = append(out, viol("C18", "opening-with-malformed-entry", c.i, "vote of %s accepted with the entry %q (topic %c), which is not a well-formed ownership entry of a supported chain", c.op[2], es, vd.topic))
+				}
+			}
+		}
 		want := commitment(decTok(c.op[3]), c.op[5])
 		if !strings.EqualFold(decTok(held), want) {
 			out = append(out, viol("C18", "reveal-does-not-open-prevote", c.i, "vote of %s (salt %s, data %s) accepted against prevote %s; its commitment is %s", c.op[2], c.op[3], c.op[5], held, want))
